@@ -1,9 +1,9 @@
 (* C01 — A step never runs more invocations at once than its worker limit.
    Statements only; every proof is `exact <lemma>` from Proofs/EngineCap.v, Proofs/EngineSlots.v and
-   Proofs/RunnerSlots.v. *)
+   Proofs/RunnerSlots.v, Proofs/RunnerSlotsExact.v. *)
 From Coq Require Import List ZArith Bool PeanoNat Lia.
 Import ListNotations.
-From WF Require Import Model.Engine Model.Runner Proofs.EngineCap Proofs.EngineSlots Proofs.RunnerSlots.
+From WF Require Import Model.Engine Model.Runner Proofs.EngineCap Proofs.EngineSlots Proofs.RunnerSlots Proofs.RunnerSlotsExact.
 Open Scope Z_scope.
 
 (* The invariant, restated in full so it cannot be quietly weakened elsewhere: per step,
@@ -168,3 +168,25 @@ Proof.
   split; [repeat constructor; cbn; lia|]. vm_compute. repeat split; reflexivity.
 Qed.
 Print Assumptions C01_run_loop_nonvacuous.
+
+(* ---- and conversely: no slot leaks.  For a fresh run (no slot taken in the start state), every schedule, every point
+   where the live run loop blocks: the slots recorded in the in_progress lists are EXACTLY the in-flight invocations, as
+   multisets (counting function cnt = count_occ) - an in_progress entry exists only while a worker really works on it. *)
+Theorem C01_run_loop_slots_are_exactly_the_in_flight_invocations : forall P s e now acts,
+  Keys_ok s -> Inv_state s -> Forall (fun p => inprogress (snd p) = []) (workers s) -> Forall action_ok acts ->
+  Runner.outcome (run_at P s e now acts) = ORunning ->
+  forall x, count_occ key_dec (held (run_at P s e now acts)) x =
+            count_occ key_dec (flat_map (fun p => map (fun k => (fst p, k)) (map i_wid (inprogress (snd p))))
+                                        (workers (st (run_at P s e now acts)))) x.
+Proof. exact run_slots_exact. Qed.
+Print Assumptions C01_run_loop_slots_are_exactly_the_in_flight_invocations.
+
+(* since nothing is buffered or unharvested when the loop blocks: every slot of every in_progress list then belongs to
+   a worker task that has been started and has not finished *)
+Theorem C01_run_loop_every_slot_has_a_running_worker : forall P s e now acts n w k,
+  Keys_ok s -> Inv_state s -> Forall (fun p => inprogress (snd p) = []) (workers s) -> Forall action_ok acts ->
+  Runner.outcome (run_at P s e now acts) = ORunning ->
+  zlookup n (workers (st (run_at P s e now acts))) = Some w -> In k (map i_wid (inprogress w)) ->
+  exists ev, In (n, k, ev) (runningw (run_at P s e now acts)).
+Proof. exact run_every_slot_has_a_running_worker. Qed.
+Print Assumptions C01_run_loop_every_slot_has_a_running_worker.
